@@ -111,10 +111,8 @@ class Collector:
     def violation(self, key, detail=None, sig=None):
         self.n_violations += 1
         self.counters["violation:" + (sig or "unclassified")] += 1
-        if len(self.violations) < self.max_violations or (
-            sig and sum(1 for v in self.violations if v["sig"] == sig) < 3
-            and len(self.violations) < 4 * self.max_violations
-        ):
+        n_same = sum(1 for v in self.violations if v["sig"] == (sig or "unclassified"))
+        if (len(self.violations) < self.max_violations and n_same < 10) or (n_same < 3 and len(self.violations) < 8 * self.max_violations):
             v = {"key": key, "sig": sig or "unclassified", "detail": detail, "trace": list(self._cur_trace.trace)}
             self.violations.append(v)
             self._pending.append(v)
